@@ -906,6 +906,119 @@ class Gen:
         return decls
 
 
+# =====================================================================================================
+# every builtin x every argument kind it accepts (deterministic; rendered in both syntaxes by the checks)
+# =====================================================================================================
+ARR4 = ("arr", 4, INT)
+PARR4 = ("ptr", ARR4)
+BYTES = ("slice", T("byte"))
+C128 = T("complex128")
+
+
+def _fn(name, res, body):
+    return ("func", None, name, [], [res], body)
+
+
+def builtin_matrix():
+    """list of (key, decls): one small program per builtin; every argument kind: variable / call result /
+    constant / composite literal of array, pointer to array, slice, string, map, and so on"""
+    arr_lit = ("comp", ARR4, [lit(1), lit(2), lit(3), lit(4)])
+    helpers = [
+        _fn("getArr", ARR4, [("return", [arr_lit])]),
+        _fn("getPtr", PARR4, [("var", "pa", None, arr_lit), ("return", [("un", "&", ident("pa"))])]),
+        _fn("nilPtr", PARR4, [("var", "np", PARR4, None), ("return", [ident("np")])]),
+        _fn("getSlice", SLICE_INT, [("return", [("comp", SLICE_INT, [lit(5), lit(6), lit(7)])])]),
+        _fn("getStr", STR, [("return", [strlit("héllo")])]),
+        _fn("getMap", MAP_SI, [("return", [("comp", MAP_SI, [("kv", strlit("a"), lit(1)), ("kv", strlit("b"), lit(2))])])]),
+        _fn("getF", F64, [("return", [lit("1.5")])]),
+        _fn("getN", INT, [("return", [lit(3)])]),
+        _fn("getC", C128, [("return", [call(pre("complex"), lit("1.5"), lit("2.5"))])]),
+        ("const", "KS", None, strlit("const")),
+    ]
+    loc = [("var", "arr", ARR4, arr_lit), ("var", "parr", None, ("un", "&", ident("arr"))),
+           ("var", "sl", None, ("comp", SLICE_INT, [lit(1), lit(2)])), ("var", "st", None, strlit("abc")),
+           ("var", "mp", None, ("comp", MAP_SI, [("kv", strlit("k"), lit(9))])), ("var", "nilsl", SLICE_INT, None)]
+    use = [("assign", [ident("_")] * 6, "=", [ident(n) for n in ("arr", "parr", "sl", "st", "mp", "nilsl")])]
+
+    def prog(body):
+        return helpers + [("func", None, "main", [], [], loc + use + body)]
+    ln = lambda x: call(pre("len"), x)
+    cp = lambda x: call(pre("cap"), x)
+    c0 = lambda n: call(ident(n))
+    out = []
+    out.append(("builtin:len", prog([
+        println(ln(ident("arr")), ln(c0("getArr")), ln(ident("parr")), ln(c0("getPtr")), ln(c0("nilPtr")), ln(arr_lit)),
+        println(ln(ident("sl")), ln(c0("getSlice")), ln(ident("nilsl")), ln(("slice", ident("sl"), lit(1), None)), ln(("slice", ident("arr"), None, lit(2)))),
+        println(ln(ident("st")), ln(c0("getStr")), ln(strlit("lit")), ln(ident("KS")), ln(("bin", "+", ident("st"), c0("getStr"))), ln(("slice", c0("getStr"), lit(1), None))),
+        println(ln(ident("mp")), ln(c0("getMap")), ln(("comp", MAP_SI, []))),
+        ("const", "KL", None, ln(ident("KS"))), println(ident("KL"), ("bin", "+", ln(ident("arr")), ln(ident("parr")))),
+    ])))
+    out.append(("builtin:cap", prog([
+        println(cp(ident("arr")), cp(c0("getArr")), cp(ident("parr")), cp(c0("getPtr")), cp(c0("nilPtr")), cp(arr_lit)),
+        println(cp(ident("sl")), cp(c0("getSlice")), cp(ident("nilsl")), cp(("slice", ident("arr"), lit(1), lit(3))),
+                cp(call(pre("make"), ("type", SLICE_INT), lit(2), lit(9))), cp(call(pre("make"), ("type", SLICE_INT), c0("getN"), ("bin", "+", c0("getN"), lit(4))))),
+        ("const", "KC", None, cp(ident("arr"))), println(ident("KC"), ("bin", "*", cp(c0("getPtr")), lit(2))),
+    ])))
+    out.append(("builtin:append", prog([
+        ("assign", [ident("sl")], "=", [call(pre("append"), ident("sl"), lit(3))]),
+        ("assign", [ident("sl")], "=", [call(pre("append"), ident("sl"), lit(4), c0("getN"), ln(ident("st")))]),
+        ("assign", [ident("sl")], "=", [("callv", pre("append"), [ident("sl"), c0("getSlice")])]),
+        ("assign", [ident("nilsl")], "=", [call(pre("append"), ident("nilsl"), lit(1))]),
+        ("var", "t2", None, ("callv", pre("append"), [c0("getSlice"), ("slice", ident("arr"), lit(1), lit(3))])),
+        ("var", "bs", None, call(pre("append"), ("conv", BYTES, strlit("ab")), lit(99))),
+        println(ln(ident("sl")), ("idx", ident("sl"), lit(6)), ln(ident("nilsl")), ln(ident("t2")), ("idx", ident("t2"), lit(4)), ("conv", STR, ident("bs"))),
+        ("range", "ai", "av", call(pre("append"), ("comp", SLICE_INT, []), lit(8), lit(9)), [println(ident("ai"), ident("av"))]),
+    ])))
+    out.append(("builtin:copy", prog([
+        ("var", "dst", None, call(pre("make"), ("type", SLICE_INT), lit(3))),
+        ("var", "n1", None, call(pre("copy"), ident("dst"), ident("sl"))),
+        ("var", "n2", None, call(pre("copy"), ("slice", ident("dst"), lit(1), None), c0("getSlice"))),
+        ("var", "n3", None, call(pre("copy"), ("slice", ident("arr"), None, None), c0("getSlice"))),
+        ("var", "bs", None, call(pre("make"), ("type", BYTES), lit(4))),
+        ("var", "n4", None, call(pre("copy"), ident("bs"), c0("getStr"))),
+        ("expr", call(pre("copy"), ident("dst"), ident("nilsl"))),
+        println(ident("n1"), ident("n2"), ident("n3"), ident("n4"), ("idx", ident("dst"), lit(0)), ("idx", ident("dst"), lit(2)),
+                ("idx", ident("arr"), lit(0)), ("idx", ident("bs"), lit(0))),
+    ])))
+    out.append(("builtin:delete", prog([
+        ("var", "m2", None, c0("getMap")),
+        ("expr", call(pre("delete"), ident("mp"), strlit("k"))), ("expr", call(pre("delete"), ident("mp"), strlit("absent"))),
+        ("expr", call(pre("delete"), ident("m2"), c0("getStr"))), ("expr", call(pre("delete"), ident("m2"), ("bin", "+", strlit(""), strlit("a")))),
+        ("expr", call(pre("delete"), c0("getMap"), ident("KS"))),
+        println(ln(ident("mp")), ln(ident("m2")), ("idx", ident("m2"), strlit("b"))),
+    ])))
+    out.append(("builtin:new-make", prog([
+        ("var", "pi", None, call(pre("new"), ("type", INT))), ("assign", [("un", "*", ident("pi"))], "=", [c0("getN")]),
+        ("var", "ps", None, call(pre("new"), ("type", STR))), ("var", "pa2", None, call(pre("new"), ("type", ARR4))),
+        ("assign", [("idx", ident("pa2"), lit(1))], "=", [lit(7)]),
+        ("var", "pm", None, call(pre("new"), ("type", SLICE_INT))),
+        ("var", "m1", None, call(pre("make"), ("type", MAP_SI))), ("assign", [("idx", ident("m1"), c0("getStr"))], "=", [lit(1)]),
+        ("var", "s1", None, call(pre("make"), ("type", SLICE_INT), c0("getN"))),
+        ("var", "s2", None, call(pre("make"), ("type", SLICE_INT), lit(0), ln(ident("arr")))),
+        ("var", "s3", None, call(pre("make"), ("type", BYTES), ln(c0("getStr")))),
+        ("var", "s4", None, call(pre("make"), ("type", ("slice", STR)), lit(2), lit(2))),
+        println(("un", "*", ident("pi")), ln(("un", "*", ident("ps"))), ("idx", ident("pa2"), lit(1)), ln(ident("pa2")), cp(ident("pa2")), ln(("un", "*", ident("pm")))),
+        println(ln(ident("m1")), ln(ident("s1")), cp(ident("s1")), ln(ident("s2")), cp(ident("s2")), ln(ident("s3")), ln(ident("s4")), ln(("idx", ident("s4"), lit(1)))),
+    ])))
+    out.append(("builtin:print-println", prog([
+        ("expr", call(pre("print"), lit(1), strlit("a"), lit("2.5"), c0("getN"), c0("getStr"))), ("expr", call(pre("print"))),
+        ("expr", call(pre("print"), strlit("\\n"))),
+        println(), println(ln(ident("arr")), c0("getF"), c0("getStr"), ("idx", ident("sl"), lit(0)), ("idx", ident("mp"), strlit("k")), lit("'x'"), ("conv", T("u8"), lit(7)), ("conv", T("i64"), lit(-9))),
+        println(ident("KS")), ("expr", call(pre("print"), ident("st"), ident("st"))), println(),
+    ])))
+    out.append(("builtin:complex-real-imag", prog([
+        ("var", "c1", None, call(pre("complex"), lit("1.5"), lit("2.5"))),
+        ("var", "c2", None, call(pre("complex"), c0("getF"), ("bin", "*", c0("getF"), lit("2.0")))),
+        ("var", "c3", None, ("bin", "+", ident("c1"), c0("getC"))),
+        println(call(pre("real"), ident("c1")), call(pre("imag"), ident("c1")), call(pre("real"), ident("c2")), call(pre("imag"), ident("c2"))),
+        println(call(pre("real"), c0("getC")), call(pre("imag"), c0("getC")), call(pre("real"), ident("c3")), call(pre("imag"), ("bin", "*", ident("c3"), ident("c2")))),
+        ("const", "KR", None, call(pre("real"), call(pre("complex"), lit("3.0"), lit("4.0")))), println(ident("KR")),
+    ])))
+    for k, arg in (("const", strlit("boom")), ("call", c0("getStr")), ("concat", ("bin", "+", ident("st"), c0("getStr"))), ("named-const", ident("KS"))):
+        out.append(("builtin:panic:" + k, prog([("defer", call(pre("println"), strlit("after"), ln(ident("arr")))), ("expr", call(pre("panic"), arg)), println(lit(0))])))
+    return out
+
+
 def gen_program(rng, size=3):
     g = Gen(rng, size)
     decls = g.program()
